@@ -5,3 +5,6 @@ package model
 type Item struct{ Tag string }
 
 func (*Item) A() {}
+
+// Linker: both packages declare an interface of this name (with different method sets).
+type Linker interface{ L1() }
